@@ -177,7 +177,19 @@ def run_unit(name, tier="quick"):
                                % ", ".join(changed + missing))
     fn = {"hash_many": "crate::platform::Platform::hash_many", "xof": "crate::platform::Platform::xof_many"}
     for rel in changed[:3]:
-        res.setdefault("suspect", []).append(failed_obligation(
+        fo = failed_obligation(
             "crate::platform::Platform::hash_many", "other",
-            "assumed kernel source %s differs from the text the kernel contract was assumed for" % rel, location=rel))
+            "assumed kernel source %s differs from the text the kernel contract was assumed for" % rel, location=rel)
+        # which build flavours compile / reach this file
+        b = os.path.basename(rel)
+        if b.startswith("rust_"):
+            fo["variants"] = ["pure", "pure_no_avx2", "pure_no_sse41"]
+        elif rel.startswith("c/") and b.endswith(".c"):
+            fo["variants"] = ["prefer_intrinsics", "pi_no_avx512", "pi_no_avx2"]
+        elif rel.startswith("c/"):
+            fo["variants"] = ["default", "no_avx512", "no_avx2", "no_sse41"]
+        else:
+            fo["variants"] = ["default", "prefer_intrinsics", "pure"]
+        fo["families"] = ["platform", "xof", "oneshot"]
+        res.setdefault("suspect", []).append(fo)
     return res
